@@ -15,7 +15,7 @@ from .verifier import Verifier
 from . import solve
 from . import lemmas
 
-CONTRACT_MODULES = ["schedule", "basic_schedules", "multistage"]
+CONTRACT_MODULES = ["schedule", "basic_schedules", "multistage", "twolevel"]
 VERIF = os.path.dirname(os.path.dirname(os.path.abspath(__file__)))
 
 
@@ -29,7 +29,7 @@ def build_registry():
     return reg
 
 
-def generate(repo="/repo", only=None, props=None):
+def generate(repo="/repo", only=None, props=None, exact=False):
     """Generate all obligations from the current working tree.
     Returns (index, reg, per_function list)."""
     index = SourceIndex(repo)
@@ -38,7 +38,9 @@ def generate(repo="/repo", only=None, props=None):
     for name, c in reg.contracts.items():
         if c.assumed:
             continue
-        if only and not any(name.endswith(o) or o in name for o in only):
+        if only and exact and name not in only:
+            continue
+        if only and not exact and not any(name.endswith(o) or o in name for o in only):
             continue
         if props and not (set(c.props) & set(props)):
             # obligations of a function may carry other properties than the contract default
@@ -114,83 +116,154 @@ def attach_spec_axioms(reg, obligations):
                 ob.pc.append(f)
 
 
-def verify(repo="/repo", only=None, props=None, timeout_s=20, verbose=False):
-    index, reg, recs = generate(repo, only, props)
-    all_obs = []
+def _gen_worker(job):
+    """One function per worker: generate its obligations and serialise them to SMT-LIB."""
+    repo, name = job
+    index, reg, recs = generate(repo, only=[name], exact=True)
+    out = []
     for r in recs:
-        all_obs.extend(r["obligations"])
-    attach_spec_axioms(reg, all_obs)
-    lemma_obs = lemmas.obligations(reg) if any(getattr(o, "uses_specs", None) for o in all_obs) else []
-    all_obs.extend(lemma_obs)
-    t0 = time.time()
-    res = solve.discharge(all_obs, timeout_s=timeout_s)
-    solve_wall = time.time() - t0
-    # vacuity covers
-    cov_pcs, cov_keys = [], []
-    for r in recs:
+        obs = r["obligations"]
+        attach_spec_axioms(reg, obs)
+        ser = []
+        for ob in obs:
+            ser.append({
+                "name": ob.name, "props": list(ob.props), "loc": ob.loc, "function": ob.function,
+                "kind": ob.kind, "clause": ob.clause, "path": ob.path_id,
+                "trivial": bool(getattr(ob, "trivial", False)),
+                "vacuous": bool(getattr(ob, "vacuous", False)),
+                "uses_specs": list(getattr(ob, "uses_specs", []) or []),
+                "smt2": None if (getattr(ob, "trivial", False) or getattr(ob, "vacuous", False))
+                else solve.to_smt2(ob.pc, ob.goal)})
+        covers = []
         for site, pc in r["covers"]:
-            cov_pcs.append(pc)
+            sv = z3.Solver()
+            for c in pc:
+                sv.add(c)
+            covers.append((site, sv.to_smt2()))
+        out.append({"name": r["name"], "status": r["status"], "error": r["error"],
+                    "npaths": r.get("npaths", 0), "gen_s": r["gen_s"],
+                    "fi": None if r["fi"] is None else describe(r["fi"], index),
+                    "props": list(r["contract"].props), "obligations": ser, "covers": covers})
+    return out
+
+
+def verify(repo="/repo", only=None, props=None, timeout_s=20, verbose=False):
+    """Generate (one process per function) and discharge (pooled) all obligations.
+    Returns (recs, obligations, results, covers, solve_wall); everything is plain data."""
+    import multiprocessing as mp
+    reg = build_registry()
+    names = []
+    for name, c in reg.contracts.items():
+        if c.assumed:
+            continue
+        if only and not any(name.endswith(o) or o in name for o in only):
+            continue
+        names.append(name)
+    jobs = [(repo, n) for n in names]
+    if len(jobs) > 1:
+        with mp.get_context("fork").Pool(min(solve.NPROC, len(jobs))) as pool:
+            parts = pool.map(_gen_worker, jobs, chunksize=1)
+    else:
+        parts = [_gen_worker(j) for j in jobs]
+    recs = [r for part in parts for r in part]
+    obligations = [o for r in recs for o in r["obligations"]]
+    uses_cnt = any(o["uses_specs"] for o in obligations)
+    if uses_cnt:
+        for ob in lemmas.obligations(reg):
+            obligations.append({"name": ob.name, "props": list(ob.props), "loc": ob.loc,
+                                "function": "lemma", "kind": "lemma", "clause": ob.clause, "path": 0,
+                                "trivial": False, "vacuous": False, "uses_specs": [],
+                                "smt2": solve.to_smt2(ob.pc, ob.goal)})
+    t0 = time.time()
+    res = solve.discharge_texts(obligations, timeout_s=timeout_s)
+    solve_wall = time.time() - t0
+    cov_keys, cov_texts = [], []
+    for r in recs:
+        for site, text in r["covers"]:
             cov_keys.append((r["name"], site))
-    cov = solve.check_sat(cov_pcs, timeout_s=5)
+            cov_texts.append(text)
+    cov = solve.check_sat_texts(cov_texts, timeout_s=3)
     covers = {}
     for (fn, site), status in zip(cov_keys, cov):
         key = "%s#%s" % (fn, site)
+        # a site is reachable if some path to it is satisfiable, proved unreachable only if
+        # every path is unsat; anything else is undecided
+        rank = {"sat": 2, "unsat": 0}
         prev = covers.get(key)
-        # a site is reachable if any path to it is satisfiable
-        if prev == "sat":
-            continue
-        covers[key] = status if prev is None or status == "sat" else prev
-    return index, reg, recs, all_obs, res, covers, solve_wall
+        if prev is None or rank.get(status, 1) > rank.get(prev, 1):
+            covers[key] = status
+    return reg, recs, obligations, res, covers, solve_wall
 
 
-def summarize(index, reg, recs, all_obs, res, covers, props=None):
+def summarize(reg, recs, obligations, res, covers, props=None, ledger=None):
     """Obligation list in the format vcheck/cli.py expects."""
-    obligations = []
+    out = []
     functions = []
     engine_error = None
     for r in recs:
         if r["fi"] is not None:
-            d = describe(r["fi"], index)
+            d = dict(r["fi"])
             d["status"] = r["status"]
-            d["paths"] = r.get("npaths", 0)
+            d["paths"] = r["npaths"]
             d["obligations"] = len(r["obligations"])
+            d["props"] = r["props"]
             functions.append(d)
         if r["status"] == "anchor_error":
-            obligations.append({"name": r["name"] + "#anchor", "props": list(r["contract"].props),
-                                "status": "anchor_error", "note": r["error"], "time_s": 0.0,
-                                "function": r["name"], "clause": "sidecar anchors match the source"})
+            out.append({"name": r["name"] + "#anchor", "props": r["props"], "status": "anchor_error",
+                        "note": r["error"], "time_s": 0.0, "function": r["name"],
+                        "clause": "sidecar anchors match the source"})
         elif r["status"] == "unsupported":
-            obligations.append({"name": r["name"] + "#unsupported", "props": list(r["contract"].props),
-                                "status": "unknown", "note": "not under vc: " + r["error"], "time_s": 0.0,
-                                "function": r["name"], "clause": "function within the verified subset"})
+            out.append({"name": r["name"] + "#unsupported", "props": r["props"], "status": "unknown",
+                        "note": "not under vc: " + r["error"], "time_s": 0.0, "function": r["name"],
+                        "clause": "function within the verified subset"})
         elif r["status"] == "engine_error":
             engine_error = "%s: %s" % (r["name"], r["error"])
-    for ob, rs in zip(all_obs, res):
+    for ob, rs in zip(obligations, res):
         status = {"unsat": "discharged", "sat": "failed", "unknown": "unknown",
                   "vacuous": "vacuous"}[rs["status"]]
-        obligations.append({
-            "name": ob.name, "props": list(ob.props), "status": status, "backend": rs["backend"],
-            "time_s": rs["time_s"], "model": rs["model"], "clause": ob.clause, "loc": ob.loc,
-            "function": ob.function, "kind": ob.kind, "path": ob.path_id,
-            "solver_output": None if rs["status"] != "unknown" else json.dumps(rs["model"])})
+        out.append({"name": ob["name"], "props": ob["props"], "status": status, "backend": rs["backend"],
+                    "time_s": rs["time_s"], "model": rs["model"], "clause": ob["clause"], "loc": ob["loc"],
+                    "function": ob["function"], "kind": ob["kind"], "path": ob["path"],
+                    "solver_output": None if rs["status"] != "unknown" else json.dumps(rs["model"])})
     if props:
-        obligations = [o for o in obligations if set(o["props"]) & set(props)]
-    # unreachable yield / return sites: vacuity
+        out = [o for o in out if set(o["props"]) & set(props)]
+        functions = [f for f in functions if set(f["props"]) & set(props) or
+                     any(o["function"] == f["name"] for o in out)]
     dead = [k for k, v in covers.items() if v == "unsat"]
-    return {"obligations": obligations, "functions": functions, "engine_error": engine_error,
+    return {"obligations": out, "functions": functions, "engine_error": engine_error,
             "covers": {"sites": len(covers), "reachable": sum(1 for v in covers.values() if v == "sat"),
+                       "undecided": sum(1 for v in covers.values() if v not in ("sat", "unsat")),
                        "unreachable": dead},
             "assumptions": [], "delegated_to_bounded": []}
 
 
+def functions_for(reg, prop):
+    """Contracts that can carry obligations of a property."""
+    names = []
+    for name, c in reg.contracts.items():
+        if c.assumed:
+            continue
+        tags = set(c.props)
+        for _, _, p in c.ensures:
+            tags |= set(p or ())
+        for v in (c.exc_props or {}).values():
+            tags |= set(v or ())
+        if prop in tags:
+            names.append(name)
+    return names
+
+
 def run_property(prop, tier="quick", seed=0, repo="/repo"):
     timeout = 20 if tier == "quick" else 60
-    index, reg, recs, all_obs, res, covers, wall = verify(repo=repo, props=[prop], timeout_s=timeout)
-    out = summarize(index, reg, recs, all_obs, res, covers, props=[prop])
+    reg0 = build_registry()
+    names = functions_for(reg0, prop)
+    if not names:
+        return {"obligations": [], "functions": [], "no_vc_expected": True, "assumptions": []}
+    reg, recs, obligations, res, covers, wall = verify(repo=repo, only=names, timeout_s=timeout)
+    out = summarize(reg, recs, obligations, res, covers, props=[prop])
     out["assumptions"] = ["assumed contract: %s (%s)" % (n, c.note) for n, c in reg.contracts.items()
                           if c.assumed]
-    if not out["obligations"]:
-        out["no_vc_expected"] = True
+    out["solve_wall_s"] = round(wall, 2)
     return out
 
 
@@ -208,24 +281,27 @@ def main(argv):
     ap.add_argument("-v", action="store_true")
     a = ap.parse_args(argv)
     t0 = time.time()
-    index, reg, recs, all_obs, res, covers, wall = verify(a.repo, a.only, a.props, a.timeout)
+    reg, recs, obligations, res, covers, wall = verify(a.repo, a.only, a.props, a.timeout)
     for r in recs:
         print("%-70s %-12s paths=%-4s obligations=%-4d gen=%.1fs %s" % (
-            r["name"], r["status"], r.get("npaths", "-"), len(r["obligations"]), r["gen_s"],
+            r["name"], r["status"], r["npaths"], len(r["obligations"]), r["gen_s"],
             (r["error"] or "")[:300]))
     bad = 0
-    for ob, rs in zip(all_obs, res):
+    for ob, rs in zip(obligations, res):
+        if a.props and not (set(ob["props"]) & set(a.props)):
+            continue
         if rs["status"] != "unsat" or a.v:
-            print("  %-8s %-90s %5.2fs %s %s" % (rs["status"], ob.name, rs["time_s"], ob.loc,
-                                                 "" if rs["status"] == "unsat" else (ob.clause or "")))
+            print("  %-8s %-90s %5.2fs %s %s" % (rs["status"], ob["name"], rs["time_s"], ob["loc"],
+                                                 "" if rs["status"] == "unsat" else (ob["clause"] or "")))
             if rs["status"] == "sat":
                 print("           model:", {k: v for k, v in (rs["model"] or {}).items()
                                             if not k.startswith("k!")})
         if rs["status"] != "unsat":
             bad += 1
-    dead = [k for k, v in covers.items() if v != "sat"]
-    print("obligations=%d discharged=%d not=%d  cover sites=%d unreachable/unknown=%s  wall=%.1fs (solve %.1fs)" % (
-        len(all_obs), len(all_obs) - bad, bad, len(covers), dead, time.time() - t0, wall))
+    dead = [k for k, v in covers.items() if v == "unsat"]
+    und = [k for k, v in covers.items() if v not in ("sat", "unsat")]
+    print("obligations=%d discharged=%d not=%d  cover sites=%d unreachable=%s undecided=%d  wall=%.1fs (solve %.1fs)" % (
+        len(obligations), len(obligations) - bad, bad, len(covers), dead, len(und), time.time() - t0, wall))
     return 0 if bad == 0 else 1
 
 
